@@ -3,28 +3,9 @@
 (* event per line; file named by the environment variable VTRACE), the      *)
 (* payload abstraction of DESIGN.md 3.2 (pattern runs / literals / garbage) *)
 (* and mismatch reporting.                                                   *)
-EXTENDS Integers, Sequences, TLC, Json, IOUtils
+EXTENDS Bytes, TLC, Json, IOUtils
 
 Trace == ndJsonDeserialize(IOEnv.VTRACE)
-
-\* Byte i (0-based) of the pattern stream with the given seed.
-PatByte(seed, i) == (i * 131 + (i \div 256) + seed * 17) % 256
-
-\* A segment is  [r |-> <<seed, off, len>>]  (len bytes of pattern `seed` from offset off),
-\*               [l |-> <<b1, ..., bn>>]     (literal bytes) or
-\*               [g |-> <<len, hash>>]       (unrecognised bytes).
-IsRun(s) == "r" \in DOMAIN s
-IsLit(s) == "l" \in DOMAIN s
-IsGarbage(s) == "g" \in DOMAIN s
-SegLen(s) == IF IsRun(s) THEN s.r[3] ELSE IF IsLit(s) THEN Len(s.l) ELSE s.g[1]
-\* Byte i (1-based) of a segment; -1 for garbage
-SegByte(s, i) == IF IsRun(s) THEN PatByte(s.r[1], s.r[2] + i - 1) ELSE IF IsLit(s) THEN s.l[i] ELSE -1
-
-RECURSIVE SegsLen(_)
-SegsLen(ss) == IF ss = <<>> THEN 0 ELSE SegLen(Head(ss)) + SegsLen(Tail(ss))
-\* Byte i (1-based) of a segment list
-RECURSIVE SegsByte(_, _)
-SegsByte(ss, i) == IF i <= SegLen(Head(ss)) THEN SegByte(Head(ss), i) ELSE SegsByte(Tail(ss), i - SegLen(Head(ss)))
 
 Report(kind, line) == PrintT(kind \o " " \o ToString(line))
 ReportWhy(kind, line, why) == PrintT(kind \o " " \o ToString(line) \o " " \o why)
